@@ -122,10 +122,11 @@ pub fn some_strategies<'a>(
             Ok((strats, Some(prof), "injected"))
         }
         k => {
-            let method = [cfr::SolveMethod::Full, cfr::SolveMethod::Sampled, cfr::SolveMethod::External][k - 1];
+            let method = [crate::refcfr::Method::Full, crate::refcfr::Method::Sampled, crate::refcfr::Method::External][k - 1];
             let iters = [0u64, 1, 5][s.below(3)];
-            let (strats, _) = game
-                .solve(method, iters, 0.0, 1, None)
+            // production samplers on per-site seeded generators: reproducible from the case bytes
+            let rec = glue::Recorder::new(glue::Mode::Seeded(s.u16() as u64));
+            let (strats, _) = glue::solve_hooked(game, &rec, method, iters, 0.0, 1, None)
                 .map_err(|e| Verdict::fail("harness/solve-error", format!("{:?}", e)))?;
             Ok((strats, None, ["full", "sampled", "external"][k - 1]))
         }
